@@ -172,6 +172,32 @@ def main(tier, replay, t0):
             e["VERIF_FP_RUSTFMT_SPAWNED_MS"] = str(delay)
         runs.append((cell, names, jp, rp, e))
 
+    # the formatter must not change the program under any derive option set either
+    optsets = [{"en": True, "se": True, "bv": True}, {"en": True, "se": True, "mv": "glam"},
+               {"en": True, "bv": True, "mv": "nalgebra", "se": True},
+               {"se": True, "bv": True, "bh": True}, {"mv": "glam", "bv": True, "en": True}]
+    opt_names = [n for n in sorted(usable) if not n.startswith("big")]
+    ojobs = []
+    for oi, o in enumerate(optsets):
+        for n in opt_names:
+            ojobs.append({"id": "%s#o%d" % (n, oi), "source": shaders[n], "opt": o, "canon": True})
+    p, ores = core.run_drive(binp, ojobs, "c19/optref")
+    oref = {r["id"]: r for r in ores if r.get("result") == "ok" and r.get("canon_sha")}
+    for k, v in oref.items():
+        ref[k] = v
+        shaders[k] = shaders[k.split("#")[0]]
+    onames = sorted(oref)
+    jp = os.path.join(work, "real_options.jobs.jsonl")
+    rp = os.path.join(work, "real_options.res.jsonl")
+    with open(jp, "w") as f:
+        for k in onames:
+            oi = int(k.split("#o")[1])
+            f.write(json.dumps({"id": k, "source": shaders[k], "opt": dict(optsets[oi], fmt=True),
+                                "canon": True}) + "\n")
+    if os.path.exists(rp):
+        os.remove(rp)
+    runs.append(("real|options|delay0", onames, jp, rp, core.env(PATH=real_dir + ":/usr/bin:/bin")))
+
     active = []
     queue = list(runs)
     finished = {}
@@ -243,7 +269,7 @@ def main(tier, replay, t0):
         if len(samples) < 8 and cell.split("|")[0] in ("kill_before_read", "empty_ok", "absent",
                                                        "read_some_then_exit1"):
             samples.append({"cell": cell, "outcome": outcome})
-    expected_cells = len(FAULTS) * 2 * len(delays) + len(delays)
+    expected_cells = len(FAULTS) * 2 * len(delays) + len(delays) + 1
     if len(cells) != expected_cells:
         inconclusive.append("only %d of %d cells ran" % (len(cells), expected_cells))
     core.finish("C19", tier, "fault_enumeration", t0, viol, {
